@@ -1,1 +1,98 @@
-fn main() { println!("hi"); }
+//! pcverif — correspondence harness for the Lean model of postcard.
+//!   pcverif gen  <prop> <tier> <seed>          print op lines
+//!   pcverif eval <prop> <oracle-out>           read op lines on stdin, print the implementation's answers
+mod core_ops;
+mod dval;
+mod gen;
+mod ops_codec;
+mod ops_schema;
+mod schema;
+mod prng;
+mod sexp;
+
+use std::io::{BufRead, Write};
+
+pub struct Ctx {
+    pub prop: String,
+    pub line_no: usize,
+    pub line: String,
+    pub oracle: Vec<String>,
+}
+impl Ctx {
+    pub fn oracle_fail(&mut self, what: String) {
+        self.oracle.push(format!("{}\t{}\t{}", self.line_no, self.line, what));
+    }
+}
+
+fn eval_line(ctx: &mut Ctx, line: &str) -> String {
+    let xs = match sexp::parse_line(line) {
+        Some(x) if !x.is_empty() => x,
+        _ => return "bad-op".into(),
+    };
+    let op = match xs[0].atom() {
+        Some(o) => o.to_string(),
+        None => return "bad-op".into(),
+    };
+    let args = &xs[1..];
+    if let Some(a) = ops_codec::eval(ctx, &op, args) {
+        return a;
+    }
+    if let Some(a) = ops_schema::eval(ctx, &op, args) {
+        return a;
+    }
+    "bad-op".into()
+}
+
+fn main() {
+    std::panic::set_hook(Box::new(|_| {}));
+    let args: Vec<String> = std::env::args().collect();
+    let mode = args.get(1).map(|s| s.as_str()).unwrap_or("");
+    match mode {
+        "gen" => {
+            let prop = args[2].as_str();
+            let thorough = args[3] == "thorough";
+            let seed: u64 = args[4].parse().expect("seed");
+            let mut r = prng::Rng::new(seed);
+            let mut out = Vec::new();
+            match prop {
+                "C01" => ops_codec::gen_c01(&mut r, thorough, &mut out),
+                "C02" => ops_codec::gen_c02(&mut r, thorough, &mut out),
+                "C03" => ops_codec::gen_c03(&mut r, thorough, &mut out),
+                "C16" => ops_schema::gen_c16(&mut r, thorough, &mut out),
+                _ => {
+                    eprintln!("unknown property {}", prop);
+                    std::process::exit(2);
+                }
+            }
+            let stdout = std::io::stdout();
+            let mut w = std::io::BufWriter::new(stdout.lock());
+            for l in out {
+                writeln!(w, "{}", l).unwrap();
+            }
+        }
+        "eval" => {
+            let prop = args[2].clone();
+            let oracle_out = args[3].clone();
+            let mut ctx = Ctx { prop, line_no: 0, line: String::new(), oracle: Vec::new() };
+            let stdin = std::io::stdin();
+            let stdout = std::io::stdout();
+            let mut w = std::io::BufWriter::new(stdout.lock());
+            for line in stdin.lock().lines() {
+                let line = line.unwrap();
+                ctx.line_no += 1;
+                ctx.line = line.clone();
+                let a = eval_line(&mut ctx, &line);
+                if a.starts_with("FAIL") {
+                    ctx.oracle_fail(a.clone());
+                }
+                writeln!(w, "{}", a).unwrap();
+            }
+            w.flush().unwrap();
+            std::fs::write(oracle_out, ctx.oracle.join("\n")).unwrap();
+        }
+        _ => {
+            eprintln!("usage: pcverif gen|eval ...");
+            std::process::exit(2);
+        }
+    }
+}
